@@ -99,6 +99,14 @@ func (w *WireRun) Run() []TraceLine {
 	// documents the "ok" cases need
 	wire.Store.SetBody("doc1", []byte(`{"a":1}`))
 	wire.Store.With(func(d map[string]*simnode.Doc) { d["doc1"].Xattrs = map[string][]byte{"chk": []byte(`{"x":1}`)} })
+	if strings.HasPrefix(name, "Meta") {
+		// the checkpoint document of vBucket 1 exists (a missing one is "no checkpoint yet" for Load and makes Save create it first)
+		id := "_connector:cbgo:g:checkpoint:1"
+		wire.Store.SetBody(id, []byte(`{}`))
+		wire.Store.With(func(d map[string]*simnode.Doc) {
+			d[id].Xattrs = map[string][]byte{"cbgo": []byte(`{"checkpoint":{"vbuuid":1,"seqno":1,"snapshot":{"startSeqno":1,"endSeqno":1}},"bucketUuid":"uuid"}`)}
+		})
+	}
 	if name == "CloseStream" {
 		// a stream must be open before it can be closed
 		_ = cl.OpenStream(1, map[uint32]string{}, &models.Offset{SnapshotMarker: &models.SnapshotMarker{}}, nopObserver(cfg, 1))
